@@ -95,7 +95,9 @@ func runC03(c *Ctx) {
 				return false
 			}
 			a, b := t.Args[0], t.Args[1]
-			isGen := func(x *Term) bool { return x.Op == "call" && strings.HasSuffix(x.Sym, "Generator).Address") && x.Args[0].Any(generatorAt.F) }
+			isGen := func(x *Term) bool {
+				return x.Op == "call" && strings.HasSuffix(x.Sym, "Generator).Address") && x.Args[0].Any(generatorAt.F)
+			}
 			return (isGen(a) && blkHdr("GeneratorAddress").Match(b)) || (isGen(b) && blkHdr("GeneratorAddress").Match(a))
 		}}, true)},
 		{"maxHeightPrevoted == own value", cmp(CmpSpec{A: blkHdr("MaxHeightPrevoted"), B: IsResult("(*consensus/liskbft.API).GetBFTHeights", 0), Rel: EQ, D: 0})},
